@@ -721,11 +721,12 @@ func toLower(s string) String {
 	return unicodeStringFromRunes(r)
 }
 
-// mapCase applies a case mapping function (which works on UTF-8) to the string. Invalid surrogates cannot be
-// represented in UTF-8, so the function is applied to the well-formed segments between them and the invalid
-// surrogates are passed through unchanged (they are neither cased nor case-ignorable, so the result is the same
-// as if the mapping were applied to the sequence of code points).
-func (s unicodeString) mapCase(f func(string) String) String {
+// mapSegments applies a text transformation which works on UTF-8 (case mapping, normalization) to the string.
+// Invalid surrogates cannot be represented in UTF-8, so the function is applied to the well-formed segments between
+// them and the invalid surrogates are passed through unchanged (they are neither cased nor case-ignorable, have no
+// decomposition and do not combine, so the result is the same as if the transformation were applied to the
+// sequence of code points).
+func (s unicodeString) mapSegments(f func(string) String) String {
 	u := s[1:]
 	var sb StringBuilder
 	start := 0
@@ -754,12 +755,12 @@ func (s unicodeString) mapCase(f func(string) String) String {
 }
 
 func (s unicodeString) toLower() String {
-	return s.mapCase(toLower)
+	return s.mapSegments(toLower)
 }
 
 func (s unicodeString) toUpper() String {
 	caser := cases.Upper(language.Und)
-	return s.mapCase(func(str string) String {
+	return s.mapSegments(func(str string) String {
 		return newStringValue(caser.String(str))
 	})
 }
